@@ -269,6 +269,10 @@ class Float(Domain):
 
     # Transform is -log(1 - x)
     class _ReverseLogUniform(LogUniform):
+        def __str__(self):
+            # Used by :func:`to_dict`, :func:`from_dict`
+            return "ReverseLogUniform"
+
         def sample(
             self,
             domain: "Float",
